@@ -193,9 +193,12 @@ def check_layout(c):
         deltas = [_rel(states[s], states[s - 1]) for s in range(1, len(states))]
         # (the library's value goes through ||A - B||^2 by inner products: its noise floor is about sqrt(u) ~ 1e-8 absolute, so only
         # changes above 1e-4 are judged, to 1e-3 relative)
-        res.check(deltas[-1] < 1e-4 or abs(info.get('e', -9) - deltas[-1]) <= 1e-3 * deltas[-1], 'info.e', cfg,
+        # (and a previous state below 1e-60 in norm - strong regularisation shrinks the tensor super-exponentially - is where the library's
+        # stabilisation documents that it no longer rescales and reports the sentinel -1)
+        prev_ok = float(np.linalg.norm(ref.dense(states[-2]))) > 1e-60
+        res.check(not prev_ok or deltas[-1] < 1e-4 or abs(info.get('e', -9) - deltas[-1]) <= 1e-3 * deltas[-1], 'info.e', cfg,
                   lambda: "info['e']=%r, relative change of the last sweep %r" % (info.get('e'), deltas[-1]), tags)
-        defined = all(float(np.linalg.norm(ref.dense(S))) > 0 for S in states[:-1])       # the relative change against a zero tensor is undefined
+        defined = all(float(np.linalg.norm(ref.dense(S))) > 1e-60 for S in states[:-1])       # the relative change against a zero tensor is undefined
         for e_thr in (sorted({f * dl for dl in deltas for f in (1.2, 1 / 1.2) if dl > 1e-4}) if defined else []):
             if any(abs(dl / e_thr - 1) < 0.1 for dl in deltas):
                 continue
